@@ -1,5 +1,6 @@
 """C14 — File encoding is transparent (DESIGN.md §3 C14): bytes are seen by one function, decoded by the BOM-sniffing API
 with the documented cascade, and every string slice downstream is triaged."""
+import re
 from vlib.mir import norm, loc_str, op_place, switch_info, loc_macro
 from vlib.facts import PRODUCT
 from rules import panics
@@ -209,6 +210,66 @@ def _nm(b, root):
     return n + "".join("." + f for f in root[1])
 
 
+def rule_rawbytes(ctx, rep, rid="R-C14-rawbytes"):
+    """The decoders must see the file's bytes, all of them and nothing else: an edit of the byte buffer before decoding acts on one
+    encoding's byte patterns (a byte-wise strip of a trailing character is right for one-byte encodings and cuts a UTF-16 unit in
+    half).  In path_to_source and its closures: the buffer read from the file (every Vec<u8>) is never borrowed mutably, and
+    the operand of decode() is that buffer through Deref alone (no slicing, trimming or copying call in between)."""
+    r = rep.rule(rid, "path_to_source hands the bytes it read to the decoders unmodified: no mutable use of the byte buffer, and decode()'s input is the "
+                      "whole buffer (reached through Deref only)", floor=2, floor_what="byte buffer uses + decode operands")
+    bodies = [b for b in ctx.prog.bodies.values() if b.id.startswith("ironplcc::source::path_to_source")]
+    if not bodies:
+        rep.error(rid, "path_to_source not found")
+        return
+    n = 0
+    for b in sorted(bodies, key=lambda x: x.id):
+        fn = norm(b.id).replace("ironplcc::source::", "")
+        vecs = {l for l, (ty, name) in enumerate(b.f["locals"]) if re.sub(r"\s", "", ty) in ("alloc::vec::Vec<u8>", "alloc::vec::Vec<u8,alloc::alloc::Global>")}
+
+        def is_buf(place):
+            if place[0] in vecs and all(x == "*" for x in place[1]):
+                return True
+            rt = b.root(place)
+            if rt[0] in vecs:
+                return True
+            fs = [x for x in rt[1] if isinstance(x, list) and x[0] == "f"]
+            return bool(fs) and re.sub(r"\s", "", fs[-1][5] or "") in ("alloc::vec::Vec<u8>",) and fs[-1][3] == "(closure)"
+        k = 0
+        for bb, kind, pl in b.place_uses():
+            if kind == "mutref" and is_buf(pl):
+                k += 1
+                users = [c for c in b.calls() if c.bb >= bb and any(op_place(a) is not None and b.root(op_place(a)) == b.root(pl) for a in c.args)]
+                who = (users[0].callee or users[0].u or "?").split("::")[-1] if users else "?"
+                r.finding("%s|byte buffer modified#%d" % (fn, k), "%s:%d" % (b.f["file"], b.f["line"]), "the bytes read from the file are modified (%s) before they are decoded: "
+                          "the edit assumes one encoding's byte patterns and changes what the other decoders see" % who)
+        if vecs and not k:
+            n += 1
+            r.ok("%s|byte buffer" % fn, "%s:%d" % (b.f["file"], b.f["line"]), "no mutable use")
+        for c in b.calls():
+            if (c.callee or "") != "encoding_rs::Encoding::decode":
+                continue
+            n += 1
+            p = op_place(c.args[1]) if len(c.args) > 1 else None
+            d = b.single_def(p[0]) if p is not None and not p[1] else None
+            for _ in range(3):      # reborrows `_a = &*_b` between the Deref call and the operand
+                if d and d[0] == "stmt" and d[3][0] == "ref" and all(x == "*" for x in d[3][2][1]):
+                    d = b.single_def(d[3][2][0])
+                else:
+                    break
+            via = None
+            if d and d[0] == "call":
+                via = d[2].callee or d[2].u or "?"
+                src = op_place(d[2].args[0]) if d[2].args else None
+                if via.endswith("Deref>::deref") and src is not None and is_buf(src):
+                    r.ok("%s|decode operand" % fn, loc_str(b.f, c.loc), "the whole buffer (Deref of the Vec)")
+                    continue
+            elif p is not None and is_buf(p):
+                r.ok("%s|decode operand" % fn, loc_str(b.f, c.loc), "the whole buffer")
+                continue
+            r.finding("%s|decode operand|not the whole buffer" % fn, loc_str(b.f, c.loc), "decode() is given %s, not the buffer that was read: the decoders see a part or a copy of the file" % (
+                "the result of %s" % via.split("::")[-1] if via else "something else"))
+
+
 def run(ctx, rep):
     rep.not_decided += ["equality of verdict/positions across encodings (follows from R-C14-single only under encoding_rs's contract, which is trusted)",
                         "column arithmetic after multi-byte characters (bytes vs chars vs UTF-16 units)", "behaviour on arbitrary binary input beyond the slice inventory"]
@@ -217,6 +278,7 @@ def run(ctx, rep):
     rule_api(ctx, rep)
     rule_slice(ctx, rep)
     rule_samestr(ctx, rep)
+    rule_rawbytes(ctx, rep)
     from rules import c06_globals
     c06_globals.run(ctx, rep, rid="R-C14-globals")
     # spans are byte offsets into the pre-processed text but are applied to the original text: the pre-processor must keep every byte position
